@@ -10,9 +10,13 @@ The configuration is turned into D rows (the item delimiter spelled as ``spellin
 (allowed to be empty) as the table has columns and loaded with ``Cid.read``.  A configuration the loader refuses is
 outside the property's domain (counted, not judged - C11 judges refusals).  For an accepted configuration the table is
 written and read back twice: ``rowio.DelimitedRowWriter`` / ``rowio.delimited_rows`` and ``cutplace.Writer`` /
-``cutplace.rows``, both over ``io.StringIO(newline="")``; what is read must equal what was written.
+``cutplace.rows``, both over ``io.StringIO(newline="")``, and - for tables containing line breaks or non-ASCII characters -
+a third time through a file path opened by the writer and the reader themselves; what is read must equal what was written.
 """
 import io
+import os
+import shutil
+import tempfile
 import itertools
 
 from hypothesis import strategies as st
@@ -132,6 +136,23 @@ def roundtrip_validio(cid, table):
         writer.close()
     text = target.getvalue()
     return text, list(cutplace.rows(cid, io.StringIO(text, newline="")))
+
+
+def roundtrip_path(cid, table):
+    """Through files: the writer and the reader open the path themselves (encoding and newline handling are theirs)."""
+    folder = tempfile.mkdtemp(prefix="c12-")
+    try:
+        path = os.path.join(folder, "table.csv")
+        writer = rowio.DelimitedRowWriter(path, cid.data_format)
+        try:
+            writer.write_rows(table)
+        finally:
+            writer.close()
+        with open(path, "rb") as written:
+            text = written.read().decode(cid.data_format.encoding, "replace")
+        return text, list(rowio.delimited_rows(path, cid.data_format))
+    finally:
+        shutil.rmtree(folder, ignore_errors=True)
 
 
 ROUNDTRIPS = (("rowio", roundtrip_rowio), ("validio", roundtrip_validio))
@@ -269,7 +290,12 @@ def check_case(sub, case, shrink=False):
     sub.case((sorted(config.items()), table), nontrivial, classes,
              sample={"config": config, "table": table} if nontrivial and len(table) <= 3 else None, evals=0)
     rowio_failed = False
-    for via, function in ROUNDTRIPS:
+    trips = ROUNDTRIPS
+    if "\r" in present or "\n" in present or any(ord(ch) > 127 for ch in present):
+        # line breaks and non-ASCII are what opening a file can spoil: also go through a path
+        trips = ROUNDTRIPS + (("path", roundtrip_path),)
+        sub.cls("via-path")
+    for via, function in trips:
         sub.evaluations += 1
         found = attempt(cid, config, table, via, function)
         if found is None:
